@@ -28,12 +28,13 @@
 ! Functions are designed to be compiled with f2py and called from Python
       subroutine ampld(axi, rat, lam, mrr, mri, eps, np, ndgs, 
      &                      alpha, beta, thet0, thet, phi0, phi, nang,
-     &                      s11, s12, s21, s22)
+     &                      s11, s12, s21, s22, ierr)
 c parameters:
       integer, parameter :: dp = selected_real_kind(15, 307)
 c variables:
       integer, intent(in) :: np, ndgs, nang
       integer :: maxi
+      integer, intent(out) :: ierr
       real(kind=dp), intent(in) :: lam, mrr, mri, eps
       real(kind=dp), intent(in) :: axi, rat, alpha, beta, thet0, phi0
       real(kind=dp), dimension(nang),intent(in) :: thet, phi
@@ -43,6 +44,17 @@ C Call amp_scat_matrix on the first angle to calc the T-matrix
       call amp_scat_matrix (axi,rat,lam,mrr,mri,eps,np,ndgs,alpha,
      &                      beta,thet0,thet(1),phi0,phi(1),
      &                      s11(1),s12(1),s21(1),s22(1),maxi)
+C amp_scat_matrix reports failure (no convergence within the compiled
+C array sizes) through maxi = -1
+      ierr = 0
+      if (maxi < 0) then
+         ierr = 1
+         s11 = 0
+         s12 = 0
+         s21 = 0
+         s22 = 0
+         return
+      end if
 C loop over the rest of the angles. T-matrix is a global (common)
       if (nang > 1) then
          do j=2, nang
